@@ -35,9 +35,34 @@ if extra:
     rep.update(json.load(open(extra))['Replace'])
 json.dump({'Replace': rep}, open(sys.argv[1], 'w'))
 PY
+build_vsc() {
+  # scheduler engine (C27, C31, C32): instrument interp from the working tree,
+  # build the explorer with the race detector
+  idir=/verif/.build/instr.$$
+  rm -rf "$idir"
+  ( cd /verif/mc && go1.26 run ./instr -repo /repo -shim /verif/mc/shim/vsched -out "$idir" -base "$ov" ) || { echo "vsc: instrumentation of interp failed (a concurrency construct the scheduler does not model?)" >&2; rm -rf "$idir" "$ov"; exit 2; }
+  ( cd /verif/mc && go1.26 build -race -tags verif -overlay "$idir/overlay.json" -o "$1" ./cmd/vsc ) || { rm -rf "$idir" "$ov"; echo "vsc: build failed" >&2; exit 2; }
+  rm -rf "$idir"
+}
+case "$1" in
+  C27|C31|C32)
+    out=/verif/.build/vsc-$1.$$
+    build_vsc "$out"
+    rm -f "$ov"
+    "$out" "$@"
+    rc=$?
+    rm -f "$out"
+    exit $rc
+    ;;
+esac
 ( cd /verif/mc && go1.26 build -tags verif -overlay "$ov" -o "$out" ./cmd/vcheck ) || { rm -f "$ov"; echo "vcheck: build failed" >&2; exit 2; }
+if [ "$1" = "--warm" ]; then
+  rm -f "$out"
+  build_vsc /verif/.build/vsc-warm.$$
+  rm -f /verif/.build/vsc-warm.$$ "$ov"
+  exit 0
+fi
 rm -f "$ov"
-if [ "$1" = "--warm" ]; then rm -f "$out"; exit 0; fi
 "$out" "$@"
 rc=$?
 rm -f "$out"
